@@ -1,5 +1,6 @@
 import QbeeModel.Lemmas.ExprSem
 import QbeeModel.Lemmas.Src
+import QbeeModel.Lemmas.SrcFuel
 /-
   C01  Compiled programs do what their QBASIC source says.  Property theorems only.
 
@@ -267,6 +268,24 @@ example : execList [] 3 [0] [] [.print (.lit 5), .exitDo, .print (.lit 6)] = som
 example : loopDo [] 4 [0] [] 0 (.lit 0) 0 (.lit 0) [.print (.lit 5), .exitDo, .print (.lit 6)] = some ⟨[0], [5], .normal⟩ :=
   exit_do_leaves_this_loop [] 3 [0] [] (.lit 0) 0 _ ⟨[0], [5], .exitDo⟩ (by simp [execList, exec, eval]) rfl
 
+
+/-! ### the reference semantics is well defined -/
+
+/-- the fuel only bounds the search for the end of a run: a program that ends (normally, by END, or with an error) with some
+    fuel ends in exactly the same way - same variables, same output, same outcome - with any larger amount; `none` means
+    "not finished yet" and nothing else.  (Mutual induction over the six functions of Model/Src.lean: Lemmas/SrcFuel.lean.) -/
+theorem more_fuel_same_result (procs : List Proc) (fuel k nvars : Nat) (prog : List Stmt) (res : Res)
+    (h : run procs fuel nvars prog = some res) : run procs (fuel + k) nvars prog = some res :=
+  execList_fuel_add procs fuel k _ _ prog res h
+
+/-- two amounts of fuel that both suffice give the same result -/
+theorem result_independent_of_fuel (procs : List Proc) (f1 f2 nvars : Nat) (prog : List Stmt) (r1 r2 : Res)
+    (h1 : run procs f1 nvars prog = some r1) (h2 : run procs f2 nvars prog = some r2) : r1 = r2 := by
+  have a := more_fuel_same_result procs f1 f2 nvars prog r1 h1
+  have b := more_fuel_same_result procs f2 f1 nvars prog r2 h2
+  rw [Nat.add_comm] at b
+  rw [a] at b
+  exact Option.some.inj b
 
 /-! ### procedures -/
 
